@@ -128,7 +128,7 @@ func TestGovcReplay(t *testing.T) {
 func c04Bounded(eng *Engine, tier string, seed int64) *BoundedResult {
 	full := tier == "thorough"
 	src := fmt.Sprintf(c04TestSrc, full, 88172645463325252+seed)
-	out := runReplayTest(repoDir(), filepath.Join(repoDir(), "netutil"), src)
+	out := runHarness(repoDir(), filepath.Join(repoDir(), "netutil"), src)
 	res := &BoundedResult{
 		What:  "IPToReversedAddr compared, on the real code, with the canonical PTR name (RFC 1035 s3.5 / RFC 3596 s2.5, IPv4-mapped as IPv4) written independently in the test, and decoded back with the real IPFromReversedAddr in four spellings (as is, trailing dot, upper case, both)",
 		Bound: fmt.Sprintf("IPv4 addresses with octets from {0,1,9,10,99,100,199,255} and their IPv4-mapped forms, IPv6 addresses varying one byte over seven values on three backgrounds, a pseudo-random sweep (full=%v), wrong-length slices", full),
